@@ -9,6 +9,7 @@ package vnode
 // invalid blocks are derived from a valid twin.
 
 import (
+	"github.com/aergoio/aergo/v2/consensus/impl/dpos"
 	"bytes"
 	"fmt"
 	"sort"
@@ -75,6 +76,11 @@ func (n *Node) SwitchToRoot(root []byte) {
 	if err == nil {
 		system.VerifResetDefaultBpCount()
 		system.InitSystemParams(scs, len(n.CS.GetGenesisInfo().BPs))
+	}
+	if n.Spec.VotingReward {
+		if err := dpos.InitVPR(n.CS.SDB().OpenNewStateDB(root)); err != nil {
+			panic(err)
+		}
 	}
 }
 
